@@ -38,6 +38,12 @@ def placements(tier):
         fs = [A2, B2, C2]
         out.append((f'nest:{c}', D(fs, nest(cross('A', 'A'), cross('BC', 'C', [c]))),
                     D(fs, nest(cross('A', 'A'), cross('BC', 'C'), [c]))))
+        # weighted uncrossed factor: the constraint is rewritten onto the desugared copies
+        BW = {'name': 'B', 'levels': [['b0', 2], 'b1']}
+        if c[3] is not None:
+            fs = [A2, BW, C2]
+            out.append((f'repeat-weighted:{c}', D(fs, repeat(cross('ABC', 'AC', [c]), [['MinimumTrials', 8]])),
+                        D(fs, repeat(cross('ABC', 'AC'), [['MinimumTrials', 8], c]))))
         if tier == 'thorough':
             fs = [A3, B2, C2]
             out.append((f'repeat3:{c}', D(fs, repeat(cross('ABC', 'A', [c]), [['MinimumTrials', 9]])),
